@@ -149,7 +149,7 @@ class Spectrum:
 
     def _ufunc(self, ufunc, other, sampling='min', method='linear', fill_value=0):
 
-        if isinstance(other, (int, float, list, tuple, np.ndarray)):
+        if isinstance(other, (int, float, list, tuple, np.ndarray, np.number)):
             wave = self.wave
             try:
                 value = ufunc(self.value, other)
